@@ -2,6 +2,7 @@ import ArroyModel.Check
 import ArroyModel.Upgrade
 import ArroyModel.Ids
 import ArroyModel.Split
+import ArroyModel.InPlace
 /-! The trace driver (PROTOCOL.md): runs the model on the operations of a trace written by the
 Rust harness, compares every answer and every dump, and evaluates the predicates of
 `Check.lean` on the implementation's own data. -/
@@ -85,6 +86,9 @@ structure DState where
   /-- the model could not follow the last build (unordered events or a reported difference):
       the next dump is checked by predicates only and then adopted -/
   resync : Bool := false
+  /-- indexes on which a build failed in the open transaction: what they hold is undefined until the
+      transaction is aborted (the crate's contract), or the index is cleared or prepared for another metric -/
+  junk : List Nat := []
   /-- stores before the last build (for the loose post-build check) -/
   preBuild : Option (Store × Nat × BuildOpts) := none
   past : List PastAnswer := []
@@ -338,6 +342,7 @@ def countSplits (c : Cfg) : T → Nat × Nat × Nat
 def storePredicates (d : DState) (s : Store) : DState := Id.run do
   let mut d := d
   for (index, info) in d.infos do
+    if d.junk.contains index then continue
     let c : Cfg := { index, metric := info.metric, dims := info.dims, host := d.host }
     -- C06 structural part: an index without pending updates and with metadata must be a valid forest
     if (s.prefixIter index (some modeUpdated)).isEmpty then
@@ -524,16 +529,16 @@ def specStep (d : DState) (op : String) (c0 : Cfg) (rest res : List String) : DS
         d := d.prop "C05" s!"del {id} on index {idx} answered {res} but the item was {if present then "present" else "absent"}"
       if res == ["ok", "1"] then d := markDirty (specDel d idx id) idx
     | none => pure ()
-  | "clear" => if res == ["ok"] then d := freshSet (specClear d idx) idx (false, true)
+  | "clear" => if res == ["ok"] then d := { freshSet (specClear d idx) idx (false, true) with junk := d.junk.filter (· != idx) }
   | "prepare" =>
     match rest[0]? >>= parseMetric? with
     | some m' =>
       if res == ["ok"] && m' != c.metric then
-        d := freshSet d idx (false, true)
+        d := { freshSet d idx (false, true) with junk := d.junk.filter (· != idx) }
         -- the items are re-encoded from what the old metric reads back
         d := { d with spec := d.spec.map fun p => if p.1.1 == idx then (p.1, expectedRead c.metric c.dims p.2) else p }
     | none => pure ()
-  | "build" => if res.headD "" == "ok" then d := freshSet d idx (true, false)
+  | "build" => if res.headD "" == "ok" then d := freshSet d idx (true, false) else d := { d with junk := idx :: d.junk }
   | "get" | "rget" =>
     match rest[0]? >>= parseNat? with
     | some id =>
@@ -573,7 +578,7 @@ def specStep (d : DState) (op : String) (c0 : Cfg) (rest res : List String) : DS
   | "needbuild" =>
     let (built, dirty) := freshGet d idx
     d := { d with nSpecChecks := d.nSpecChecks + 1 }
-    if res != ["ok", boolStr (!built || dirty)] then
+    if !(d.junk.contains idx) && res != ["ok", boolStr (!built || dirty)] then
       d := d.prop "C06" s!"need_build of index {idx} answered {res}: built={built}, effective change since the last build={dirty}"
   | "open" =>
     let (built, dirty) := freshGet d idx
@@ -589,7 +594,7 @@ def specStep (d : DState) (op : String) (c0 : Cfg) (rest res : List String) : DS
         (if res.take 2 != ["err", "needbuild"] then some s!"open of the stale index {idx} answered {res}" else none)
       else if !opened then some s!"open of the freshly built index {idx} answered {res}" else none
     match complaint with
-    | some msg => d := d.prop "C06" msg
+    | some msg => if !(d.junk.contains idx) then d := d.prop "C06" msg
     | none => pure ()
   | _ => pure ()
   return d
@@ -795,7 +800,12 @@ def handleOp (d : DState) (p : Pending) (res : List String) : DState := Id.run d
         d := d.setInfo c.index { info with capHist := capHist }
         return { d with resync := true, preBuild := some (s, c.index, args.opts), caseBuilds := d.caseBuilds + 1 }
       else
-        -- a failed build: whatever it left is discarded by the abort the protocol requires
+        -- a failed build: whatever it left is discarded by the abort the protocol requires; but it must have
+        -- failed for a reason the harness gave it (a requested cancellation, a full map, an unusable temp directory)
+        let excused := (res.take 2 == ["err", "cancelled"] && args.cancel.isSome) || res.take 2 == ["err", "mapfull"]
+          || (tmpBad && res.take 2 == ["err", "io"])
+        if !excused then
+          d := d.prop "ALL" s!"build failed with [{implStr}] although no fault was injected"
         return { d with resync := true, preBuild := none, nCancelled := d.nCancelled + 1 }
     let _ := ok
     -- the database running out of space can strike at any write: the model cannot predict where; the
@@ -822,7 +832,9 @@ def handleOp (d : DState) (p : Pending) (res : List String) : DState := Id.run d
       | none => d := d.diff "split search drew fewer than two stored items" "" (toString ids)
     let st0 : BState := { store := s, cancelAt := args.cancel, normals, rands, batches }
     let refKey := p.toks.filter fun t => !(t.startsWith "cancel=")
-    match Build.build c args.opts 100000 st0 with
+    -- the build with the polls in place (`InPlace.buildM`); `Build.build`, which the forest theorems are about,
+    -- is proved to run the same way (`C10_inplace_build`: same success, same cancellation call)
+    match InPlace.buildM c args.opts 100000 st0 with
     | .ok ((), st) =>
       d := { d with nBuildsReplayed := d.nBuildsReplayed + 1, caseBuilds := d.caseBuilds + 1 }
       d := cmp d s!"ok polls={st.polls}"
@@ -849,7 +861,14 @@ def handleOp (d : DState) (p : Pending) (res : List String) : DState := Id.run d
             if !(implPolls == some (n + 1) || implPolls == some (n + 2)) then
               d := d.diff "polls of a cancelled build" s!"{n + 1}" (toString implPolls)
           else d := d.prop "C10" s!"build cancelled although the callback only fires at call {n} and a complete build makes {total} calls"
-        | _, _ => pure ()
+        | some _, none => pure ()
+        | none, _ =>
+          -- nobody asked for a cancellation: the poll limit of the harness (hang detection) stopped the build
+          d := d.prop "ALL" s!"build stopped by the harness after {implPolls.getD 0} polls without finishing (non-termination?)"
+      else if tmpBad && res.take 2 == ["err", "io"] then pure ()
+      else
+        -- neither a requested cancellation nor an injected fault: the build broke on its own
+        d := d.prop "ALL" s!"build failed with [{implStr}] although no fault was injected (the model needed: {w})"
       return { d with resync := true, preBuild := none }
     | .error e =>
       d := cmp d (errStr e)
@@ -1112,7 +1131,7 @@ def step (d : DState) (line : String) : DState :=
   | ["enddump"] => handleDump d
   | "case" :: n :: _ =>
     { d with caseId := (parseNat? n).getD 0, step := 0, committed := [], txn := none, infos := [], pending := none,
-             resync := false, preBuild := none, past := [], refs := [], caseFailures := 0, expectRecovered := false,
+             resync := false, preBuild := none, past := [], refs := [], caseFailures := 0, expectRecovered := false, junk := [],
              caseBuilds := 0, caseSplits := 0, caseQueries := 0, rawPending := #[], oldLayout := none, spec := [], specAtBegin := [],
              fresh := [], freshAtBegin := [], specOff := false,
              expectAfterUpgrade := none, inExpect := false, versions := #[[]], snapshots := [], inSnapshot := none, committing := false }
@@ -1128,7 +1147,7 @@ def step (d : DState) (line : String) : DState :=
       | some (_, old) => (i, old)
       | none => (i, { info with capHist := none })
     { d with txn := none, step := d.step + 1, resync := false, preBuild := none, past := [], infos := infos,
-             spec := d.specAtBegin, fresh := d.freshAtBegin }
+             spec := d.specAtBegin, fresh := d.freshAtBegin, junk := [] }
   | ["endcase"] => if d.caseFailures == 0 then d.emit s!"CASE {d.caseId} ok steps={d.step} builds={d.caseBuilds} splits={d.caseSplits} queries={d.caseQueries}" else d.emit s!"CASE {d.caseId} FAILED failures={d.caseFailures}"
   | ["expect-after-upgrade"] => { d with inExpect := true, dumpKV := #[] }
   | ["endexpect"] => { d with inExpect := false, expectAfterUpgrade := some d.dumpKV.toList, dumpKV := #[], oldLayout := some [] }
